@@ -26,11 +26,12 @@ type Net struct {
 	env *Env
 	mu  sync.Mutex
 
-	peers  map[int]peer.ID
-	byPeer map[peer.ID]int
-	cut    map[[2]int]bool // unordered pair -> link is cut
-	subs   map[string]map[int]*simTopic
-	direct map[int]iface.DirectChannelEmitter
+	peers    map[int]peer.ID
+	byPeer   map[peer.ID]int
+	cut      map[[2]int]bool // unordered pair -> link is cut
+	blockCut map[[2]int]bool // unordered pair -> messages pass but blocks cannot be fetched (half-open partition)
+	subs     map[string]map[int]*simTopic
+	direct   map[int]iface.DirectChannelEmitter
 	// joinSeen[topic][a][b]: a has been told b joined topic (reset on cut)
 	joinSeen map[string]map[int]map[int]bool
 
@@ -42,7 +43,7 @@ type Net struct {
 }
 
 func newNet(e *Env) *Net {
-	return &Net{env: e, peers: map[int]peer.ID{}, byPeer: map[peer.ID]int{}, cut: map[[2]int]bool{},
+	return &Net{env: e, peers: map[int]peer.ID{}, byPeer: map[peer.ID]int{}, cut: map[[2]int]bool{}, blockCut: map[[2]int]bool{},
 		subs: map[string]map[int]*simTopic{}, direct: map[int]iface.DirectChannelEmitter{},
 		joinSeen: map[string]map[int]map[int]bool{}, Auto: true}
 }
@@ -98,6 +99,7 @@ func (n *Net) Cut(a, b int) {
 func (n *Net) Heal(a, b int) {
 	n.mu.Lock()
 	delete(n.cut, pair(a, b))
+	delete(n.blockCut, pair(a, b))
 	n.mu.Unlock()
 	n.announceJoins()
 }
@@ -474,4 +476,21 @@ func (n *Net) ResetTraffic(auto bool) {
 	n.Log = nil
 	n.Auto = auto
 	n.mu.Unlock()
+}
+
+// CutBlocks makes blocks unfetchable between a and b while messages still pass.
+func (n *Net) CutBlocks(a, b int) {
+	n.mu.Lock()
+	n.blockCut[pair(a, b)] = true
+	n.mu.Unlock()
+}
+
+// BlocksReachable reports whether a can fetch blocks held by b.
+func (n *Net) BlocksReachable(a, b int) bool {
+	if a == b {
+		return true
+	}
+	n.mu.Lock()
+	defer n.mu.Unlock()
+	return !n.cut[pair(a, b)] && !n.blockCut[pair(a, b)]
 }
